@@ -1454,3 +1454,6 @@ def destroyGlobalNuclides():
     byMcc3IdEndfbVII0.clear()
     byMcnpId.clear()
     byAAAZZZSId.clear()
+    # the elements must not keep nuclides of the generation that is being destroyed
+    for element in elements.byZ.values():
+        element.nuclides = []
